@@ -52,6 +52,10 @@ type spec struct {
 	SQL   bool        `json:"sql"`         // also drive a real SQLite connection on the registered VFS
 	Cache int         `json:"cache_pages"` // VFS page cache in pages (0 = litestream's default 10 MB)
 	Demo  string      `json:"demo,omitempty"`
+	// Hyd: "" | "temp" | "persist". The views are opened through litestream.VFS with
+	// HydrationEnabled (temp file, or a persistent file that survives Close and is
+	// resumed by the next Open of the history).
+	Hyd string `json:"hydration,omitempty"`
 }
 
 // Violation keys. The first three are decided by a predicate over the history
@@ -101,8 +105,8 @@ func cases(run *vf.Run) ([]json.RawMessage, error) {
 	}
 	var out []json.RawMessage
 	demoCfg := hist.Config{PageSize: 4096, AutoVacuum: 2, MinCheckpointPageN: 1000, TruncatePageN: 0, CheckpointInterval: 0, MaxSyncWALFrames: -1, MaxSyncLTXFiles: 0}
-	for _, d := range []string{"a", "b", "c", "d", "e", "f"} {
-		out = append(out, vf.Spec(spec{Seed: vf.SubSeed(run.Seed, "C18-demo", d), Cfg: demoCfg, Cache: 1, Demo: d}))
+	for _, d := range []string{"a", "b", "c", "d", "e", "f", "g", "h", "i", "j", "k", "l"} {
+		out = append(out, vf.Spec(spec{Seed: vf.SubSeed(run.Seed, "C18-demo", d), Cfg: demoCfg, Cache: 1, Demo: d, Hyd: demoHyd[d]}))
 	}
 	for i := 0; i < n; i++ {
 		rng := rand.New(rand.NewSource(vf.SubSeed(run.Seed, "C18", i)))
@@ -115,6 +119,15 @@ func cases(run *vf.Run) ([]json.RawMessage, error) {
 			Cfg:   cfg,
 			SQL:   i%4 == 1,
 			Cache: []int{1, 0, 8, 1}[i%4],
+		}
+		// hydration dimension: 5 of 16 histories (one of them with the SQLite connection)
+		switch {
+		case i%8 == 2:
+			s.Hyd = "temp"
+		case i%8 == 6:
+			s.Hyd = "persist"
+		case i%16 == 13:
+			s.Hyd = "temp"
 		}
 		out = append(out, vf.Spec(s))
 	}
@@ -149,8 +162,21 @@ type view struct {
 	seed         ltx.TXID // ... so the level-1 cursor was seeded with this position
 	broken       bool
 	tt           bool
+	ttWant       []byte // the time-travel view's reference: Restore(Timestamp=T)
+	ttWhat       string
+	ttFx         facts
 	db           *sql.DB
 	conn         *sql.Conn
+
+	// hydration dimension (hydration.go)
+	hw              *hydWatch
+	gated           bool     // the hydration goroutine is held in flight
+	posAtGate       ltx.TXID // position when it was held
+	polledDuringHyd string   // predicate of keyHydPoll
+	ttDuringHyd     string   // predicate of keyHydTT
+	resetPastHyd    string   // predicate of keyHydReset
+	resumeFrom      int
+	resumeGap       string // predicate of keyHydResume
 }
 
 type harness struct {
@@ -167,6 +193,8 @@ type harness struct {
 	direct *view
 	sqlv   *view
 	cap    *capVFS
+	capC   *viewClient
+	capH   *hydHandler
 	vfsNm  string
 
 	queue []string
@@ -204,6 +232,13 @@ type viewClient struct {
 	armed   atomic.Bool
 	entered chan struct{}
 	release chan struct{}
+
+	opens atomic.Int64 // OpenLTXFile calls: every page, index or header fetch of the read side
+}
+
+func (c *viewClient) OpenLTXFile(ctx context.Context, level int, minTXID, maxTXID ltx.TXID, offset, size int64) (io.ReadCloser, error) {
+	c.opens.Add(1)
+	return c.ReplicaClient.OpenLTXFile(ctx, level, minTXID, maxTXID, offset, size)
 }
 
 func (c *viewClient) arm() {
@@ -285,6 +320,12 @@ func runCase(run *vf.Run, raw json.RawMessage, dir string) *vf.Result {
 		if !h.stop && res.HarnessErr == "" {
 			h.queue = append(h.queue[:0], "unhide", "w:ins-small", "sync")
 			if h.direct != nil {
+				if h.direct.gated {
+					h.queue = append(h.queue, "hrelease")
+				}
+				if h.direct.tt {
+					h.queue = append(h.queue, "ttreset")
+				}
 				h.queue = append(h.queue, "poll")
 			}
 			if h.sqlv != nil {
@@ -299,17 +340,24 @@ func runCase(run *vf.Run, raw json.RawMessage, dir string) *vf.Result {
 	res.Count(fmt.Sprintf("page_size_%d", s.Cfg.PageSize), 1)
 	res.Count(fmt.Sprintf("auto_vacuum_%d", s.Cfg.AutoVacuum), 1)
 	res.Count(fmt.Sprintf("cache_pages_%d", s.Cache), 1)
+	if s.Hyd != "" {
+		res.Count("histories_with_hydration", 1)
+		res.Count("histories_with_hydration_"+s.Hyd, 1)
+	}
 	res.Count("level0_commit_decreases", h.histShrinks)
-	res.Sig = fmt.Sprintf("%x", sha256.Sum256([]byte(s.Cfg.String()+fmt.Sprint(s.SQL, s.Cache)+strings.Join(h.toks, ","))))[:16]
+	res.Sig = fmt.Sprintf("%x", sha256.Sum256([]byte(s.Cfg.String()+fmt.Sprint(s.SQL, s.Cache, s.Hyd)+strings.Join(h.toks, ","))))[:16]
 	res.Nontrivial = h.compares >= 3 && len(h.cmpTXIDs) >= 2 && h.advancedPolls >= 1 && h.histShrinks >= 1
 	steps := strings.Join(h.toks, " ")
 	if len(steps) > 1500 {
 		steps = steps[:1500] + "..."
 	}
-	res.Sample = map[string]any{"cfg": s.Cfg.String(), "sql": s.SQL, "cache_pages": s.Cache, "demo": s.Demo, "steps": steps,
+	res.Sample = map[string]any{"cfg": s.Cfg.String(), "sql": s.SQL, "cache_pages": s.Cache, "hydration": s.Hyd, "demo": s.Demo, "steps": steps,
 		"comparisons": h.compares, "distinct_txids_compared": len(h.cmpTXIDs), "polls_that_advanced": h.advancedPolls, "level0_commit_decreases": h.histShrinks}
 	return res
 }
+
+// demoHyd: the hydration mode of the pinned demonstration histories.
+var demoHyd = map[string]string{"h": "temp", "i": "temp", "j": "temp", "k": "temp", "l": "persist"}
 
 func demoScript(d string) []string {
 	grow := []string{"x:INSERT INTO t0(v) VALUES(zeroblob(80000))", "x:INSERT INTO t0(v) VALUES(zeroblob(60000))", "sync"}
@@ -327,6 +375,28 @@ func demoScript(d string) []string {
 	case "f": // SetTargetTime while a poll that will find new files is in flight
 		return append(grow, "open", "x:INSERT INTO t1(v) VALUES(zeroblob(100))", "sync", "poll",
 			"x:INSERT INTO t1(v) VALUES(zeroblob(3000))", "sync", "x:INSERT INTO t2(v) VALUES(zeroblob(3000))", "sync", "ttrace:pos")
+	case "g": // SetTargetTime / ResetTime inside a read transaction during which a poll staged newer files (growth, then a shrink)
+		return append(grow, "open", "x:INSERT INTO t1(v) VALUES(zeroblob(100))", "sync", "poll",
+			"x:INSERT INTO t1(v) VALUES(zeroblob(9000))", "x:UPDATE t0 SET v=zeroblob(70000) WHERE id=2", "sync", "ttlock:pos",
+			"x:DELETE FROM t0 WHERE id=1", "incvac:3", "sync", "ttlock:pos",
+			"x:INSERT INTO t2(v) VALUES(zeroblob(5000))", "sync", "rtlock")
+	case "h": // hydrated view: polls, then time travel with primary commits in the window, ResetTime, poll
+		return append(grow, "open", "x:INSERT INTO t1(v) VALUES(zeroblob(100))", "sync", "poll",
+			"x:DELETE FROM t0 WHERE id=1", "incvac:3", "sync", "poll",
+			"ttset:pos", "x:INSERT INTO t1(v) VALUES(zeroblob(9000))", "x:UPDATE t0 SET v=zeroblob(50000) WHERE id=2", "sync", "ttpoll",
+			"x:INSERT INTO t2(v) VALUES(zeroblob(100))", "sync", "ttreset",
+			"x:INSERT INTO t2(v) VALUES(zeroblob(200))", "sync", "poll")
+	case "i": // a poll advances the position while the background hydration is in flight
+		return append(grow, "open:gate", "x:INSERT INTO t1(v) VALUES(zeroblob(9000))", "sync", "poll", "hrelease",
+			"x:INSERT INTO t2(v) VALUES(zeroblob(100))", "sync", "poll")
+	case "j": // SetTargetTime while the background hydration is in flight; it completes during time travel
+		return append(grow, "x:INSERT INTO t1(v) VALUES(zeroblob(9000))", "sync", "open:gate", "ttset:first", "hrelease", "ttreset")
+	case "k": // ResetTime (PRAGMA litestream_time = latest) on a hydrated view that is not time travelling, with unpolled files on the replica
+		return append(grow, "open", "x:INSERT INTO t1(v) VALUES(zeroblob(9000))", "sync", "rtplain",
+			"x:INSERT INTO t2(v) VALUES(zeroblob(100))", "sync", "poll")
+	case "l": // persistent hydrated copy resumed after level-0 retention removed files it has not seen
+		return append(grow, "open", "close", "x:INSERT INTO t1(v) VALUES(zeroblob(9000))", "sync", "x:INSERT INTO t2(v) VALUES(zeroblob(100))", "sync",
+			"compact1:del", "open", "x:INSERT INTO t2(v) VALUES(zeroblob(100))", "sync", "poll")
 	case "d": // compaction + level-0 retention of the files the view was reading
 		return append(grow, "open", "x:INSERT INTO t1(v) VALUES(zeroblob(100))", "sync", "compact1:del", "poll")
 	}
@@ -398,20 +468,79 @@ func (h *harness) gen() {
 			}
 			return
 		}
+		small := func() string { return "w:" + []string{"update", "ins-small", "ins-multi"}[h.rng.Intn(3)] }
 		if h.direct == nil {
+			if h.s.Hyd != "" {
+				// a slow hydration: the background restore is held in flight while the view is used
+				switch q := h.rng.Intn(100); {
+				case q < 15:
+					h.queue = append(h.queue, "open:gate", small(), "sync", "poll", "hrelease")
+					return
+				case q < 22:
+					h.queue = append(h.queue, "open:gate", "ttset", "hrelease", "ttreset")
+					return
+				case q < 27:
+					h.queue = append(h.queue, "open:gate", small(), "sync", "rtplain", "hrelease")
+					return
+				}
+			}
 			h.queue = append(h.queue, "open")
 			return
 		}
+		if h.s.Hyd != "" && h.direct.hw != nil && !h.direct.hw.serving() && h.rng.Intn(3) == 0 {
+			// time travel switched hydrated reads off for the rest of this file's life: reopen
+			h.queue = append(h.queue, "close", "open")
+			return
+		}
+		// staged: commits for the next poll to find, a third of the time with a shrink among them
+		staged := func() []string {
+			if h.rng.Intn(3) > 0 {
+				return []string{small(), "sync"}
+			}
+			t := []string{[]string{"w:delete-half", "w:delete-all"}[h.rng.Intn(2)]}
+			switch h.s.Cfg.AutoVacuum {
+			case 2:
+				t = append(t, fmt.Sprintf("incvac:%d", []int{0, 2, 5, 20}[h.rng.Intn(4)]))
+			case 0:
+				t = append(t, "vacuum")
+			}
+			if h.rng.Intn(3) == 0 {
+				t = append(t, small())
+			}
+			return append(t, "sync")
+		}
 		switch q := h.rng.Intn(100); {
-		case q < 55:
+		case q < 46:
 			h.queue = append(h.queue, "poll")
-		case q < 70:
+		case q < 56:
 			h.queue = append(h.queue, "lpoll")
-		case q < 78:
+		case q < 61:
 			h.queue = append(h.queue, "tt")
-		case q < 85:
-			h.queue = append(h.queue, "w:"+[]string{"update", "ins-small", "ins-multi"}[h.rng.Intn(3)], "sync", "ttrace")
-		case q < 93:
+		case q < 66:
+			h.queue = append(h.queue, small(), "sync", "ttrace")
+		case q < 74:
+			// SetTargetTime inside a read transaction during which a poll staged newer files
+			h.queue = append(h.queue, append(staged(), "ttlock")...)
+		case q < 78:
+			// ResetTime inside a read transaction during which a poll staged newer files
+			h.queue = append(h.queue, append(staged(), "rtlock")...)
+		case q < 81:
+			// ResetTime with unpolled files on the replica, not time travelling
+			h.queue = append(h.queue, small(), "sync", "rtplain")
+		case q < 90:
+			// the primary keeps committing while the view looks at the past
+			h.queue = append(h.queue, "ttset", small(), "sync")
+			if h.rng.Intn(2) == 0 {
+				h.queue = append(h.queue, "ttpoll")
+			}
+			if h.rng.Intn(3) == 0 {
+				h.queue = append(h.queue, staged()...)
+			}
+			h.queue = append(h.queue, []string{"ttreset", "ttreset", "ttreset:lock"}[h.rng.Intn(3)])
+			if h.rng.Intn(2) == 0 {
+				h.queue = append(h.queue, small(), "sync", "poll")
+			}
+		case q < 95:
 			h.queue = append(h.queue, "close")
 		default:
 			h.queue = append(h.queue, "close", "open")
@@ -500,7 +629,9 @@ func (h *harness) next() {
 			h.res.Count("level0_files_deleted_by_retention", before-after)
 		}
 	case "open":
-		h.open()
+		h.open(arg == "gate")
+	case "hrelease":
+		h.releaseHydration(h.direct)
 	case "close":
 		h.closeView(&h.direct)
 	case "poll":
@@ -508,9 +639,21 @@ func (h *harness) next() {
 	case "lpoll":
 		h.poll(h.direct, true)
 	case "tt":
-		h.timeTravel(h.direct, false, arg)
+		h.timeTravel(h.direct, "", arg)
 	case "ttrace":
-		h.timeTravel(h.direct, true, arg)
+		h.timeTravel(h.direct, "race", arg)
+	case "ttlock":
+		h.timeTravel(h.direct, "lock", arg)
+	case "ttset":
+		h.ttSet(h.direct, "", arg)
+	case "ttpoll":
+		h.ttPoll(h.direct)
+	case "ttreset":
+		h.ttReset(h.direct, arg == "lock")
+	case "rtlock":
+		h.resetOutsideTimeTravel(h.direct, true)
+	case "rtplain":
+		h.resetOutsideTimeTravel(h.direct, false)
 	case "sqlopen":
 		h.sqlOpen()
 	case "sqlclose":
@@ -843,6 +986,9 @@ func (v *view) addFiles(ids []fileID) {
 }
 
 func (h *harness) classify(v *view, fx facts, generic string) (string, string) {
+	if key, why := h.hydClassify(v, fx); key != "" {
+		return key, why
+	}
 	if generic == keyRead && fx.allBusy {
 		if why := h.cursorSeedingExplains(v, fx.busyPages); why != "" {
 			return keyRetention, why + "; files this view took index entries from that retention deleted: " + h.deletedFile(v) + "; " + fx.desc
@@ -875,7 +1021,7 @@ func (h *harness) violate(v *view, fx facts, generic, format string, a ...any) {
 		return
 	}
 	h.seenKeys[key] = true
-	h.res.Violate(key, "%s view, step %d %q: %s; history predicate: %s [%s cache_pages=%d]", v.label, len(h.toks), fx.kind, msg, why, h.s.Cfg, h.s.Cache)
+	h.res.Violate(key, "%s view, step %d %q: %s; history predicate: %s [%s cache_pages=%d hydration=%q]", v.label, len(h.toks), fx.kind, msg, why, h.s.Cfg, h.s.Cache, h.hydDesc(v))
 	if len(h.seenKeys) >= 4 {
 		h.stop = true
 	}
@@ -928,6 +1074,29 @@ func (h *harness) compareBytes(v *view, fx facts, ref []byte, what string) bool 
 	ps := h.ps
 	npages := len(ref) / ps
 	lock := int(ltx.LockPgno(uint32(ps)))
+	var opens0 int64
+	if v.client != nil {
+		opens0 = v.client.opens.Load()
+	}
+	defer func() {
+		// how the reads of this comparison were served: a view that serves from its
+		// hydrated copy does not touch the replica (observed at the read side's client)
+		if v.client == nil || v.hw == nil {
+			return
+		}
+		fetched := v.client.opens.Load() - opens0
+		switch model := v.hw.serving(); {
+		case model && fetched == 0:
+			h.res.Count("compare_served_from_hydrated_file", 1)
+			h.res.Count("pages_read_while_hydrated", npages)
+		case model:
+			h.res.Count("compare_hydrated_view_fetched_from_replica", 1)
+		case fetched == 0 && npages > h.cachePages():
+			h.res.Count("compare_without_replica_fetch_although_hydrated_reads_are_off", 1)
+		default:
+			h.res.Count("compare_hydration_enabled_served_through_index", 1)
+		}
+	}()
 	size, err := v.f.FileSize()
 	h.res.Evals++
 	var sizeMsg string
@@ -1109,7 +1278,45 @@ func (h *harness) latestPlan() ([]*ltx.FileInfo, error) {
 	return litestream.CalcRestorePlan(h.ctx, h.client, 0, time.Time{}, h.logger)
 }
 
-func (h *harness) open() {
+func (h *harness) cachePages() int {
+	if h.s.Cache > 0 {
+		return h.s.Cache
+	}
+	return litestream.DefaultCacheSize / h.ps
+}
+
+func (h *harness) hydDesc(v *view) string {
+	if v.hw == nil {
+		return "off"
+	}
+	finished, completed, failed, disabled, applyErrs := v.hw.state()
+	d := h.s.Hyd
+	switch {
+	case v.gated:
+		d += ", held in flight"
+	case !finished:
+		d += ", in flight"
+	case completed && disabled == 0:
+		d += ", complete, hydrated reads on"
+	case completed:
+		d += ", complete, hydrated reads switched off by SetTargetTime"
+	default:
+		d += ", failed: " + failed
+	}
+	if applyErrs > 0 {
+		d += fmt.Sprintf(", %d failed update(s) of the hydrated copy", applyErrs)
+	}
+	if v.resumeFrom > 0 {
+		d += fmt.Sprintf(", resumed at TXID %d", v.resumeFrom)
+	}
+	return d
+}
+
+// open opens the direct view. With the hydration dimension on it goes through
+// litestream.VFS (HydrationEnabled) and, unless gate is set, waits for the
+// background hydration to complete before anything is compared; with gate the
+// hydration goroutine is held at its first step until "hrelease".
+func (h *harness) open(gate bool) {
 	if h.direct != nil {
 		return
 	}
@@ -1119,18 +1326,44 @@ func (h *harness) open() {
 		h.res.Count("open_skipped_no_plan", 1)
 		return
 	}
-	f, c := h.newFile()
-	if err := f.Open(); err != nil {
-		h.e.Logf("vfs Open err=%v", err)
-		h.res.Count("open_error", 1)
-		_ = f.Close()
-		return
+	var v *view
+	if h.s.Hyd == "" {
+		f, c := h.newFile()
+		if err := f.Open(); err != nil {
+			h.e.Logf("vfs Open err=%v", err)
+			h.res.Count("open_error", 1)
+			_ = f.Close()
+			return
+		}
+		v = &view{label: "direct", f: f, client: c}
+	} else {
+		persisted := persistedTXID(h.hydPath("direct"))
+		f, c, w, err := h.newHydratedFile(gate)
+		if err != nil {
+			h.e.Logf("vfs Open (hydration) err=%v", err)
+			h.res.Count("open_error", 1)
+			return
+		}
+		v = &view{label: "direct", f: f, client: c, hw: w}
+		h.res.Count("hydration_started", 1)
+		h.noteResume(v, persisted)
 	}
-	v := &view{label: "direct", f: f, client: c}
 	h.direct = v
 	fx := h.planFacts("open", plan)
 	v.built(fx)
-	h.e.Logf("vfs Open -> pos=%d maxTXID1=%d", f.Pos().TXID, f.MaxTXID1())
+	h.e.Logf("vfs Open -> pos=%d maxTXID1=%d hydration=%q", v.f.Pos().TXID, v.f.MaxTXID1(), h.s.Hyd)
+	if v.hw != nil {
+		if gate {
+			if !h.gatedOpenEntered(v) && h.res.HarnessErr != "" {
+				return
+			}
+		} else if !h.awaitHydration(v) && h.res.HarnessErr != "" {
+			return
+		}
+		if v.hw.serving() {
+			fx.kind = "open-hydrated"
+		}
+	}
 	h.compare(v, fx)
 }
 
@@ -1140,6 +1373,10 @@ func (h *harness) closeView(pv **view) {
 		return
 	}
 	*pv = nil
+	if v.gated { // Close waits for the hydration goroutine
+		v.gated = false
+		close(v.hw.release)
+	}
 	if v.conn != nil {
 		_ = v.conn.Close()
 	}
@@ -1206,11 +1443,16 @@ func (h *harness) poll(v *view, locked bool) {
 			return
 		}
 	}
+	before := v.f.Pos().TXID
 	h.pollOnce(v, fx)
 	if locked {
 		if err := v.f.Unlock(sqlite3vfs.LockNone); err != nil {
 			h.e.Logf("Unlock(NONE) err=%v", err)
 		}
+	}
+	if after := v.f.Pos().TXID; v.gated && after > before {
+		v.polledDuringHyd = fmt.Sprintf("a poll advanced the position %d -> %d while the background hydration (started at position %d) was in flight", before, after, v.posAtGate)
+		h.res.Count("poll_advanced_while_hydration_in_flight", 1)
 	}
 	h.compare(v, fx)
 }
